@@ -71,6 +71,14 @@ CHECKS = {
         note="Value-domain property: the family degenerates to exhaustive enumeration of a finite argument lattice; indeterminate 0*inf volumes are accepted either way.",
         design="3/C15",
     ),
+    "C17": dict(
+        engine="seqx",
+        category="model_checking",
+        technique="explicit-state breadth-first search over the real ask/suggest/tell/calc transition function with state de-duplication on (study, calculator internals)",
+        text="Breadth-first over all event histories (enqueue, ask, suggest one of 4 parameters two of which share a name, tell any RUNNING trial COMPLETE/PRUNED/FAIL in any order, calc) up to depth 7 (thorough 10; 4 trials to depth 8) on a real in-memory study with long-lived IntersectionSearchSpace (both include_pruned) and _GroupDecomposedSearchSpace objects. At every calc: equals intersection_search_space(study.get_trials()) from scratch, is sorted, never grows once established; groups are disjoint, cover exactly the seen parameters, every finished trial is a union of groups.",
+        note="In-memory storage only; partitions de-duplicate independently (state counts are an upper bound).",
+        design="3/C17",
+    ),
     "C18": dict(
         engine="seqx-lattice",
         category="exploration",
@@ -88,7 +96,7 @@ ENGINES = [
          kind_free_text="bounded-exhaustive enumeration of finite argument lattices with exact or reference oracles"),
     dict(name="thx", path="vf/thx.py", serves_properties=["C03"],
          kind_free_text="stateless exploration of thread interleavings of the real code under a controlled scheduler, preemption-bounded"),
-    dict(name="seqx", path="vf/c01.py", serves_properties=["C01", "C06", "C12"],
+    dict(name="seqx", path="vf/c01.py", serves_properties=["C01", "C06", "C12", "C17"],
          kind_free_text="bounded-exhaustive explicit-state search over operation sequences of the real code with reference-model / brute-force oracles"),
 ]
 
